@@ -12,7 +12,7 @@ var ruleAdditions = map[string]string{
 	"C07": " Also: for every sixth judged tree a leading unary plus (+(E), (+(E)), set z = +(E), +leaf) must print what E prints.",
 	"C09": " Also: one case in 50 renders `sorted` / `reversed sorted` over int64/uint64/int/float64/string lists, arrays and map keys with distinct values around 0, 2^31, 2^53, 2^60, 2^62 and MaxInt64 against Go's sort.",
 	"C10": " Also: a template that extends a chain member and includes it (once or twice) from a block it overrides, through Execute and ExecuteBlocks.",
-	"C11": " Also: loaders hand out DataErrReader / OneByteReader / HalfReader / bytes.Buffer / sized / multi readers; one case in 300 executes 1001-1600 includes of a one-level partial in eight forms.",
+	"C11": " Also: loaders hand out DataErrReader / OneByteReader / HalfReader / bytes.Buffer / sized / multi readers; one case in 300 executes 1001-1600 includes of a one-level partial in eight forms; one case in 20 renders a real directory tree with decoys through LocalFilesystemLoader (with / without base directory, SetBaseDir), SandboxedFilesystemLoader, FSLoader(os.DirFS), HttpFilesystemLoader (with / without base directory) and two base-directory loaders joined by AddLoader.",
 	"C13": " Also: overlapping executions (one parked 400-990 deep): a second terminating recursion and a runaway recursion behave as alone; import lists alias-then-plain, alias-plain-alias, two aliases.",
 	"C14": " Also (worker prelude): executions broken off by a recovered panic (context function, writer) precede the cases.",
 	"C16": " Also: 11 built-in filter failures with place-independent messages as broken constructs; included / imported / ssi-parsed files whose names differ from the referrer's only in case.",
